@@ -52,6 +52,20 @@ CLAIMED = {
          "fits; Encode to a new buffer: buffer iff success; unvouched structures: -1 with an errno or a consistent encoding; Crash/Timeout events "
          "have no action). TLC enumerates (type, value | violated value | zero structure) x syntax x buffer size x failing-callback index.",
          "TLA+ encoder-sink contract + TLC-enumerated sizes / failure indices + trace validation"),
+ "C14": ("model_checking", "7 C14",
+         "Codec.tla tracks which slots own a structure (none / value / raw / zero), an armed allocation failure (fault) and the restartable "
+         "session; Free of the last owner requires an empty allocation ledger, Reset requires an all-zero structure that then decodes like a fresh one, "
+         "a call in which the armed failure fired may only fail or succeed cleanly. TLC enumerates the histories (starved decode / garbage / reset / "
+         "re-decode / encode / free x failure of the k-th allocation); the driver's link-time wrapped allocator supplies the ledger and the failures; "
+         "ASan turns double frees into Crash events, which no action explains.",
+         "TLA+ lifecycle/ledger state machine + TLC-enumerated histories and allocation-failure points + trace validation (ASan build)"),
+ "C04": ("exploration", "7 C04",
+         "TLC applies the mutation actions of MC_Gen (every truncation, byte substitutions at every position, duplicated tail, dropped byte, "
+         "appended octets) to the reference encodings in DER/OER/UPER/XER; each mutated input is decoded, printed, validated, re-encoded, the "
+         "re-encoding decoded and compared, and freed, in an ASan+UBSan build; Trace_Codec accepts only rc in {OK,WMORE,FAIL}, consumed <= size, a "
+         "consistent re-encoding and an empty ledger; sanitizer reports, aborts and watchdog timeouts are Crash/Timeout events. Memory safety is "
+         "observed on the explored inputs, not proved.",
+         "TLC-generated structure-aware mutations + sanitizer build + TLA+ trace validation of the decode contract"),
 }
 
 checks = []
